@@ -44,7 +44,7 @@ type docStrings struct {
 // made unique per document by suffixing a counter when a pool key repeats.
 func newDocGen(rng *rand.Rand) *docGen {
 	seen := map[string]int{}
-	g := &docGen{rng: rng, maxDepth: 3, typed: true}
+	g := &docGen{rng: rng, maxDepth: 3, typed: true, scalarEnv: true}
 	g.str = func(class string) string {
 		switch class {
 		case "key", "envname":
